@@ -518,7 +518,7 @@ func c11Array(r *rand.Rand, U []any, keyed bool) []any {
 func init() {
 	run.Register(&run.Prop{
 		ID: "C11", Level: "exploration", MinNontrivial: 1000,
-		Rule: "axioms-row: for each value a of the ~200-value universe (every type and nesting shape, near-equal neighbours, equal numbers in int/float64/*big.Int/json.Number form; NaN-free, floats below 2^53) all pairs (b,c) are checked for reflexivity, antisymmetry, transitivity, agreement of the six operators with Compare and of Compare with an independent comparator written from the manual — exhaustive over ordered triples. consumer: (function, array, argument) cases for sort/sort_by/unique/unique_by/group_by/min/max/min_by/max_by/bsearch/array subtraction/index/rindex/indices/object key order against the specification comparator; every distinct case counts as non-trivial.",
+		Rule:        "axioms-row: for each value a of the ~200-value universe (every type and nesting shape, near-equal neighbours, equal numbers in int/float64/*big.Int/json.Number form; NaN-free, floats below 2^53) all pairs (b,c) are checked for reflexivity, antisymmetry, transitivity, agreement of the six operators with Compare and of Compare with an independent comparator written from the manual — exhaustive over ordered triples. consumer: (function, array, argument) cases for sort/sort_by/unique/unique_by/group_by/min/max/min_by/max_by/bsearch/array subtraction/index/rindex/indices/object key order against the specification comparator; every distinct case counts as non-trivial.",
 		Assumptions: []string{"the specification comparator (harness/internal/model/order.go) is a faithful transcription of the manual's order", "sort.SliceStable and encoding/json are correct"},
 		Body: func(c *run.Ctx) {
 			c11Init(c)
